@@ -48,7 +48,7 @@ def std_gate_arity_obligations():
            '/// OpenQASM 2 gates the implementation adds (written from the language documents)',
            'pub open spec fn std_gate_arity(n: Seq<char>) -> Option<(nat, nat)> { %s }' % chain,
            '/// one obligation per row `(names, [angles, qubits])` of SymbolTable::standard_library_gates, generated from the text of /repo on this run',
-           'proof fn std_gate_table_rows() {']
+           'proof fn c09_c13_std_gate_table_rows() {']
     names = sorted(set(list(STD_ARITY) + [r[0] for r in (rows or [])]))
     for n in names:
         out.append('    reveal_strlit("%s"); assert(%s);' % (n, ' && '.join(['"%s"@.len() == %d' % (n, len(n))] + ['"%s"@[%d] == \'%s\'' % (n, i_, c_) for i_, c_ in enumerate(n)])))
